@@ -106,6 +106,18 @@ def _sync_lock(crate_dir):
 
 def build_ksim():
     d = os.path.join(VERIF, "sim", "ksim")
+    if REPO != "/repo":
+        # (trial lane: the crate names its dependency by path; build a copy of the manifest that points at VERIF_REPO)
+        alt = os.path.join(CACHE, "ksim-crate")
+        os.makedirs(alt, exist_ok=True)
+        with open(os.path.join(d, "Cargo.toml")) as f:
+            text = f.read().replace('path = "/repo"', 'path = "%s"' % REPO)
+        with open(os.path.join(alt, "Cargo.toml"), "w") as f:
+            f.write(text)
+        link = os.path.join(alt, "src")
+        if not os.path.islink(link):
+            os.symlink(os.path.join(d, "src"), link)
+        d = alt
     _sync_lock(d)
     env = _cargo_env(True)
     env["CARGO_TARGET_DIR"] = KSIM_TARGET
@@ -180,6 +192,10 @@ def write_evidence(prop, tier, seed, coverage, wall_s, violations, assumptions, 
         f.write("\n")
     os.replace(tmp, path)
     return path
+
+
+def replay_dir():
+    return os.environ.get("VERIF_REPLAY_DIR") or os.path.join(VERIF, "replays")
 
 
 def save_replay(prop, name, obj):
